@@ -573,6 +573,34 @@ fn normalise(msg: &str) -> String {
 fn site_shape(solution: &Value, site: &str) -> String {
     let num = |prefix: &str| site.split('.').find_map(|p| p.strip_prefix(prefix).and_then(|n| n.parse::<usize>().ok()));
     let mut out = String::new();
+    if site.starts_with("resource.") {
+        // solution-level site: what is drawn from a resource is summed over tour intervals, which the checker builds from
+        // legs - an interval of one stop (a reload stop directly followed by another reload stop, or a reload in the last
+        // stop) has none, a reload which is not the first activity of its stop starts an interval inside a stop
+        let first_is = |stops: &[Value], si: usize, kind: &str| stops.get(si).is_some_and(|s| s["activities"][0]["type"].as_str() == Some(kind));
+        let mut one_stop = false;
+        let mut inside = false;
+        for tour in solution["tours"].as_array().into_iter().flatten() {
+            let stops = tour["stops"].as_array().cloned().unwrap_or_default();
+            for si in 0..stops.len() {
+                let acts = stops[si]["activities"].as_array().cloned().unwrap_or_default();
+                let has_reload = acts.iter().any(|a| a["type"].as_str() == Some("reload"));
+                if has_reload && (first_is(&stops, si + 1, "reload") || si + 1 == stops.len()) {
+                    one_stop = true;
+                }
+                if acts.iter().skip(1).any(|a| a["type"].as_str() == Some("reload")) {
+                    inside = true;
+                }
+            }
+        }
+        if one_stop {
+            out.push_str("|interval-of-one-stop");
+        }
+        if inside {
+            out.push_str("|reload-sharing-stop");
+        }
+        return out;
+    }
     if let Some(ti) = num("tour") {
         let stops = solution["tours"][ti]["stops"].as_array().cloned().unwrap_or_default();
         if stops.len() == 1 {
@@ -801,7 +829,21 @@ fn record(case: &W1Case, seed: u64, tier: Tier, only: Option<(&str, &str)>) -> C
         rec.evaluations += 1;
     }
     // (c) single breaches
-    let all = mutants(&case.problem, &solution);
+    let mut all = mutants(&case.problem, &solution);
+    // shared reload resource: its capacity set one unit below what all tours together draw from it (in one dimension;
+    // every single reload still fits). The load taken at the reloads is above the capacity of the resource.
+    if let (Ok(pm), Ok(ss)) = (crate::oracle::model::PModel::parse(&case.problem, &case.matrices), crate::oracle::model::SSolution::parse(&solution)) {
+        for (id, amount) in crate::oracle::check::resource_draw(&pm, &ss) {
+            let Some(ri) = case.problem["fleet"]["resources"].as_array().and_then(|rs| rs.iter().position(|r| r["id"].as_str() == Some(id.as_str()))) else { continue };
+            for (d, a) in amount.iter().enumerate() {
+                if *a >= 1 && case.problem["fleet"]["resources"][ri]["capacity"].get(d).is_some() {
+                    let mut p2 = case.problem.clone();
+                    p2["fleet"]["resources"][ri]["capacity"][d] = json!(a - 1);
+                    all.push(Mutant { class: "load-above-capacity", site: format!("resource.{id}.dim{d}.capacity-below-total-draw"), problem: Some(p2), solution: None });
+                }
+            }
+        }
+    }
     let cap = match tier {
         Tier::Quick => 60,
         Tier::Thorough => usize::MAX,
@@ -834,6 +876,8 @@ fn record(case: &W1Case, seed: u64, tier: Tier, only: Option<(&str, &str)>) -> C
                     }
                     if m.class == "misplaced-break" {
                         issues.iter().any(|i| i.rule == "break-window")
+                    } else if m.site.ends_with("capacity-below-total-draw") {
+                        issues.iter().any(|i| i.rule == "shared-resource")
                     } else {
                         !issues.is_empty()
                     }
